@@ -13,7 +13,7 @@ CHECK = dict(
         dict(name="plain-tbb", flavour="plain", **_TBB),
         dict(name="plain-mm", flavour="plain"),
     ],
-    parallel_runs=2,
+    parallel_runs=4,
     timeout={"quick": 600, "thorough": 3000},
     floor={
         "*:grid_allocations": 3000,
@@ -24,10 +24,10 @@ CHECK = dict(
         "*:allocator_bad_alloc_seen": 30,
         "*:huge_requests_null": 100,
         "*:rebind_pairs": 6,
-        "*:vector_reallocations_with_elements": {"quick": 10000, "thorough": 500000},
-        "*:vector_histories_S24": {"quick": 600, "thorough": 30000},
-        "*:vector_histories_S100": {"quick": 600, "thorough": 30000},
-        "*:vector_histories_Tracked40": {"quick": 600, "thorough": 30000},
+        "*:vector_reallocations_with_elements": {"quick": 10000, "thorough": 300000},
+        "*:vector_histories_S24": {"quick": 600, "thorough": 18000},
+        "*:vector_histories_S100": {"quick": 600, "thorough": 18000},
+        "*:vector_histories_Tracked40": {"quick": 600, "thorough": 18000},
         "plain-mm:release_cycles": 6000,
         "plain-tbb:release_cycles": 6000,
     },
